@@ -30,10 +30,10 @@ DEFS = ["(Definition/A, (Red))", "(Definition/B/#, (Label/#))"]
 SINGLES = [(m, n) for m in MARKS for n in NAMES]
 
 
-def group_text(ev, delay=None):
+def group_text(ev, delay=None, delay_tag="Delay"):
     m, n = ev
     if delay:
-        return f"(Def/{n}, {m}, Delay/{delay})"
+        return f"(Def/{n}, {m}, {delay_tag}/{delay})"
     return f"(Def/{n}, {m})"
 
 
@@ -191,6 +191,9 @@ def realisations(tp, t):
         yield "equal-onset-rows", [(t, texts[0]), (t, texts[1])]
     yield "delay-shifted", [(t - 0.5, ", ".join(group_text(e, "0.5 s") for e in tp))]
     yield "delay-shifted-ms", [(t - 0.25, ", ".join(group_text(e, "250 ms") for e in tp))]
+    # the tag name in another letter case (tag names are case-insensitive)
+    if len(tp) == 1:
+        yield "delay-shifted-case", [(t - 0.5, group_text(tp[0], "0.5 s", "DELAY" if tp[0][0] == "Onset" else "delay"))]
     if len(tp) == 2 and tp[0][1].casefold() != tp[1][1].casefold():
         yield "mixed-delay-second", [(t - 0.5, group_text(tp[1], "0.5 s")), (t, texts[0])]
         yield "mixed-delay-first", [(t - 0.5, group_text(tp[0], "0.5 s")), (t, texts[1])]
@@ -350,9 +353,60 @@ def validator_reuse(ctx, depth):
             rec.outcome("reuse")
 
 
+def special_files(ctx):
+    """Files outside the generated realisations: rows of equal onset with character-identical text, and marker rows that
+    draw a warning, validated with warnings on and off: the temporal issues are those of the reference machine."""
+    import pandas as pd
+    from hed import load_schema_version
+    from hed.models.tabular_input import TabularInput
+    from hed.models.definition_dict import DefinitionDict
+    from hed.errors.error_reporter import ErrorHandler
+    rec = ctx.rec
+    schema = load_schema_version("8.3.0")
+    dd = DefinitionDict(DEFS, schema)
+    files = []
+    # identical texts at one time: time points as lists of (mark, name); rows given per time point
+    for first in (("Onset", "A"), ("Offset", "A"), ("Inset", "A")):
+        for rep in (("Offset", "A"), ("Onset", "A"), ("Inset", "A")):
+            for n in (2, 3):
+                files.append(([[(1.0, group_text(first))], [(2.0, group_text(rep))] * n], [[first], [rep] * n], "identical-rows"))
+                files.append(([[(1.0, group_text(first))], [(2.0, group_text(rep))] * (n - 1) + [(1.5, group_text(rep, "0.5 s"))]],
+                              [[first], [rep] * n], "identical-row-and-delayed-group"))
+    # marker rows that draw a warning only (extension, missing unit)
+    for extra in ("Item/Gizmo", "Label/Abc", "(Item/Gizmo, Blue)"):
+        for tail_ in (("Offset", "A"), ("Inset", "A")):
+            files.append(([[(1.0, f"(Def/A, Onset), {extra}")], [(2.0, group_text(tail_))]], [[("Onset", "A")], [tail_]],
+                          "warning-rows"))
+            files.append(([[(1.0, f"(Def/A, Onset, ({extra.strip('()')}))")], [(2.0, group_text(tail_))]],
+                          [[("Onset", "A")], [tail_]], "warning-rows"))
+    for tps_rows, tps_marks, kind in files:
+        rows = sorted([r for tp in tps_rows for r in tp], key=lambda r: r[0])
+        ref = RefMachine()
+        want = sum(len(ref.step(list(m))) for m in tps_marks)
+        df = pd.DataFrame({"onset": [str(r[0]) for r in rows], "HED": [r[1] for r in rows]})
+        for warn in (False, True):
+            rec.n("evaluations")
+            rec.n("transitions", len(rows))
+            rec.n("distinct_nontrivial")
+            try:
+                issues = TabularInput(df).validate(schema, extra_def_dicts=dd, error_handler=ErrorHandler(check_for_warnings=warn))
+            except Exception as e:
+                rec.violation("C10:special:raises:" + type(e).__name__, rows=rows, error=repr(e)[:200])
+                continue
+            other = [i["code"] for i in issues if i["severity"] == 1 and i["code"] not in ("TEMPORAL_TAG_ERROR",)]
+            got = sum(1 for i in issues if i["code"] == "TEMPORAL_TAG_ERROR")
+            if other:
+                rec.outcome("special:other-errors")       # e.g. a repeated group: not this property's business
+                continue
+            if got != want:
+                rec.violation(f"C10:special:{kind}:expected {want} got {got}" + (":warnings-on" if warn else ""), rows=rows,
+                              warnings=warn, messages=[i.get("message", "")[:80] for i in issues if i["code"] == "TEMPORAL_TAG_ERROR"])
+            rec.outcome("special:" + kind)
+
+
 def worst_kind(combo):
     ks = [k for k, _ in combo]
-    for k in ("mixed-delay-first", "mixed-delay-second", "delay-shifted-ms", "delay-shifted", "equal-onset-rows"):
+    for k in ("mixed-delay-first", "mixed-delay-second", "delay-shifted-case", "delay-shifted-ms", "delay-shifted", "equal-onset-rows"):
         if k in ks:
             return k
     return "one-row"
@@ -371,6 +425,7 @@ def run(ctx):
     ctx.parallel(worker_narrow, l1, l2, ctx.seed)
     ctx.parallel(worker_e2e, l3, e2e_two, ctx.thorough, ctx.seed)
     validator_reuse(ctx, ctx.pick(2, 3))
+    special_files(ctx)
     ctx.rec.counts["states"] = len(ctx.rec.states)
 
 
